@@ -125,6 +125,27 @@ def chain_ggsf(pool, cers) -> List[dict]:
     return out
 
 
+BENIGN = ["Muss", "Kann", "Soll", "X", "Muss [501]", "Muss [1] O [501]", "k"]   # never forbid anything
+
+
+def all_shapes(rng: random.Random, fills: int, pool, cers) -> List[dict]:
+    """every tree SHAPE with one root group, <= 2 nested group levels, <= 2 sub-groups and <= 2 segments per group,
+    <= 1 data element (free text or single-entry pool) per segment — 2379 shapes — each filled `fills` times with
+    random expressions (alternately from a pool that never forbids, so that the complete order is visible, and from
+    the full pool)"""
+    out = []
+    for shape in G.group_shapes(2, 2, 2, 1, 1):
+        k = G.slot_count([shape])
+        for f in range(fills):
+            p = BENIGN if f % 2 == 0 else pool
+            lines = G.fill([shape], [rng.choice(p) for _ in range(k)],
+                           freetext_inputs=[rng.choice(G.FREETEXT_INPUTS) for _ in range(k)],
+                           pool_inputs=[rng.choice([None, "", "A", G.FOREIGN_VALUE]) for _ in range(k)])
+            out.append({"lines": lines, "cer": rng.choice(cers), "soll": rng.random() < 0.5,
+                        "entry": "deep" if rng.random() < 0.8 else "level_group"})
+    return out
+
+
 def sampled(rng: random.Random, n: int, depth: int, branching: int, pool, entry_pool, cers, max_pool: int
             ) -> List[dict]:
     out = []
@@ -148,6 +169,9 @@ def run(ctx, tier: str, seed: int) -> None:
     pool_small = G.POOL_C13 if thorough else G.POOL_C13_SMALL
     entry_pool = G.POOL_ENTRY_THOROUGH if thorough else G.POOL_ENTRY
     G.warm_cache(G.POOL_C13 + entry_pool, cers)
+    ctx.assume("C13 judges discriminators, order, exactly-once, pruning and statuses (incl. FILLED/EMPTY suffix); for "
+               "value-pool elements only FORBIDDEN-ness and the suffix (C17), for a free text with an INVALID "
+               "expression only 'optional' (C16; the statement's suffix clause speaks about valid expressions)")
     ctx.trust("A-EVAL expression evaluation (bounded.common.evaluate on the real code) is the oracle's callback; "
               "its correctness is the subject of C03-C10")
 
@@ -165,7 +189,13 @@ def run(ctx, tier: str, seed: int) -> None:
                     MODULE, RULE, exhaustive=True,
                     bound="group > sub-group > segment > free text; every expression quadruple from a pool of "
                           f"{len(G.POOL_C13_SMALL)} x 3 content evaluation results x both flags")
-    depth, n = (3, 200_000) if thorough else (2, 20_000)
+    fills = 10 if thorough else 2
+    G.run_cases(ctx, "all-shapes-depth2", all_shapes(rng, fills, G.POOL_C13, cers), check_case, MODULE, RULE,
+                exhaustive=False,
+                bound=f"all 2379 tree shapes with one root group, <= 2 nested group levels, <= 2 sub-groups and <= 2 "
+                      f"segments per group, <= 1 data element per segment; {fills} seeded random fills each "
+                      f"(expressions, inputs, content evaluation result, flag) - shapes exhaustive, fills sampled")
+    depth, n = (3, 200_000) if thorough else (2, 16_000)
     G.run_cases(ctx, f"sampled-trees-depth{depth}",
                 sampled(rng, n, depth, 2, G.POOL_C13, entry_pool, cers, max_pool=3), check_case, MODULE, RULE,
                 exhaustive=False,
